@@ -80,6 +80,14 @@ def gen_dicts(rng, fmt, enc):
                 d["extra"] = rng.choice(["e", 3])
         else:
             d["n"] = rng.choice(["1", "2.5", "t"])
+            if i > 0 and rng.random() < 0.25:
+                del d[rng.choice(["b", "n"])]
+        # the items of one list need not have been built key by key in the same order (items filled in by modify, lists
+        # put together with +, JSON records written by different hands): equal dicts, different insertion orders
+        if i > 0 and rng.random() < 0.6:
+            ks = list(d)
+            rng.shuffle(ks)
+            d = {k: d[k] for k in ks}
         out.append(d)
     return out
 
